@@ -192,6 +192,20 @@ TablesOf(ks, bump) ==
                      PosIn(sv, <<ks[i].k, ks[i].a, VerOf(ks[i], bump), ks[i].s>>),
                      PosIn(vl, <<ks[i].k, ks[i].a, VerOf(ks[i], bump), ks[i].s, ks[i].v>>)>> : i \in DOMAIN ks}]
 
+(* ---- run ids as the code sees them: a monotone image of the model's ----  *)
+(* The stored run ids are  model run + off  (off = 0, 7 or 97: 8..11 and    *)
+(* 98..101 have different numbers of decimal digits, so "ascending run id"  *)
+(* differs from the order of the rendered strings); the run-id expression   *)
+(* of a query is shifted likewise.  Every operator above is on integers,    *)
+(* so the reference and the transcription judge the shifted case as it is.  *)
+Offsets == {0, 7, 97}
+ShiftItem(it, off) == IF it.k = "i" THEN IdItem(it.a + off)
+                      ELSE RgItem(it.a + off, IF it.b = OPEN THEN OPEN ELSE it.b + off)
+ShiftExpr(e, off)  == [i \in DOMAIN e |-> ShiftItem(e[i], off)]
+ShiftDb(db, off)   == {[x EXCEPT !.run = x.run + off] : x \in db}
+ShiftQuery(q, off) == [q EXCEPT !.run = ShiftExpr(q.run, off)]
+Width(n) == IF n < 10 THEN 1 ELSE IF n < 100 THEN 2 ELSE 3
+
 (* ---- the bounded query space ----                                       *)
 NameChoices(d) ==
     LET n == DbNames[d]
